@@ -74,6 +74,7 @@ type Check struct {
 	sideOK       int
 	sideTotal    int
 	Samples      []interface{}
+	Post         func(c *Check) // side conditions evaluated after the jobs ran
 }
 
 type checkFn func(c *Check)
@@ -136,6 +137,9 @@ func cmdCheck(args []string) int {
 	c.Ld = ld
 	fn(c)
 	c.runJobs()
+	if c.Post != nil {
+		c.Post(c)
+	}
 	c.collect()
 	c.replayFindings()
 	return c.finish()
